@@ -105,6 +105,11 @@ def run_sessions(c, codecs, pids, n_random, n_exh, extra_reqs=(), big=False):
             hp_req.append("X %d %d %d %s %s %d %d %d %s %s" % (q.k, q.r, (nent + 1023) // 1024, "1" if a.LN == "1" else "0", a.Hs, q.cb, q.api, q.finish, a.PM or "-",
                                                                " ".join(map(str, q.esis if q.api == 0 else sorted(set(q.esis))))))
             hp_idx.append(i)
+        if (q.codec in (sessions.RS28, sessions.RS2M) and a.HL is not None and a.P == 0 and a.Q == 0
+                and not any(f[0] in ("C01", "C02", "C10") for f in fails)):
+            hp_req.append("E %d %d %d %d %d %d %d %s" % (1 if q.codec == sessions.RS28 else 0, q.k, q.k + q.r, q.cb, q.api, 1 if q.role == 4 else 0, q.finish,
+                                                         " ".join(map(str, q.esis))))
+            hp_idx.append(i)
         if fails or a.P != 0 or a.Q != 0:
             continue
         if q.codec in (sessions.RS28, sessions.RS2M):
@@ -193,7 +198,7 @@ def run_sessions(c, codecs, pids, n_random, n_exh, extra_reqs=(), big=False):
                 if got != want:
                     c.proof_failed.append({"correspondence": "dec/heap-ledger", "request": lines[i][:400], "c": want[:800], "model": got[:800], "model_request": hp_req[j][:3000],
                                            "note": "library-owned heap blocks of the decoder session (after set-up; after every submission call; after of_finish_decoding; "
-                                                   "left after of_release_codec_instance = decoded source symbols the application owns) differ from the ownership ledger LdpcHeap.v"})
+                                                   "left after of_release_codec_instance = decoded source symbols the application owns) differ from the ownership ledger (LdpcHeap.v / RSHeap.v)"})
                     break
         if ml_req:
             rc, mout, _ = vlib.sh([mexe], input="\n".join(ml_req) + "\n", timeout=3000)
